@@ -111,6 +111,9 @@ class Explorer(object):
         self.decisions = 0        # symbolic branch decisions taken (forks + implied)
         self.forks = 0            # decisions where both polarities were feasible
         self.queries = 0
+        self.fresh_queries = 0
+        self.incremental_timeout_ms = 15000
+        self._answered = self.solver
         self.solver_s = 0.0
         self.requires = 0         # assertions discharged
         self.sym_requires = 0     # ... of which the condition was a symbolic formula
@@ -131,13 +134,29 @@ class Explorer(object):
 
     # ------------------------------------------------------------------ solver plumbing
     def _check(self, *assumptions):
+        """satisfiability of path condition + assumptions.  First the incremental solver (cheap,
+        short budget); if it answers unknown - its incremental core does not use nlsat - the same
+        formula goes to a fresh solver, for which z3 selects its complete QF_NRA strategy."""
         t = time.time()
+        self.solver.set('timeout', min(self.solver_timeout_ms, self.incremental_timeout_ms))
         r = self.solver.check(*assumptions)
-        self.solver_s += time.time() - t
+        self._answered = self.solver
         self.queries += 1
         if r == z3.unknown:
-            raise Inconclusive('solver unknown (%s) in %s' % (self.solver.reason_unknown(), self.name))
+            fresh = z3.Solver()
+            fresh.set('timeout', self.solver_timeout_ms)
+            fresh.add(self.solver.assertions())
+            fresh.add(*assumptions)
+            r = fresh.check()
+            self._answered = fresh
+            self.fresh_queries += 1
+        self.solver_s += time.time() - t
+        if r == z3.unknown:
+            raise Inconclusive('solver unknown (%s) in %s' % (self._answered.reason_unknown(), self.name))
         return r == z3.sat
+
+    def _model(self):
+        return self._answered.model()
 
     def add(self, term):
         self.solver.add(term)
@@ -232,7 +251,7 @@ class Explorer(object):
             else:
                 if not self._check():
                     raise PathAbort('infeasible')
-                m = self.solver.model()
+                m = self._model()
                 val = _pyval(m.eval(term, model_completion=True))
                 zv = self._const_like(term, val)
                 if self._check(term != zv):
@@ -272,7 +291,7 @@ class Explorer(object):
     def model_inputs(self):
         if not self._check():
             return None
-        m = self.solver.model()
+        m = self._model()
         out = {}
         for k, t in self.inputs.items():
             out[k] = _pyval(m.eval(t, model_completion=True))
@@ -298,7 +317,7 @@ class Explorer(object):
             self.rewrites += 1
             return True
         if self._check(z3.Not(cond)):
-            m = self.solver.model()
+            m = self._model()
             inputs = {k: _pyval(m.eval(t, model_completion=True)) for k, t in self.inputs.items()}
             self._violation(label, inputs, detail() if callable(detail) else detail)
             self.add(cond)
@@ -399,7 +418,7 @@ class Explorer(object):
                 'aborted': self.paths_aborted, 'cut': self.paths_cut, 'cut_reasons': self.cut_reasons,
                 'decisions': self.decisions, 'forks': self.forks, 'queries': self.queries,
                 'solver_s': round(self.solver_s, 4), 'requires': self.requires,
-                'sym_requires': self.sym_requires, 'rewrites': self.rewrites,
+                'sym_requires': self.sym_requires, 'rewrites': self.rewrites, 'fresh_queries': self.fresh_queries,
                 'require_labels': self.require_labels,
                 'violations': [v.as_dict() for v in self.violations],
                 'samples': self.samples, 'notes': self.notes,
@@ -749,10 +768,16 @@ class R(Sym):
             if o2.v == 1:
                 return self
             return R(self.z3() * _rterm(1 / o2.v))
-        if ctx().branch(o2.v == 0):
+        c = ctx()
+        if c.branch(o2.v == 0):
             raise NonFinite('division by zero')
         if isinstance(self.v, Fraction) and self.v == 0:
             return R(Fraction(0))
+        if getattr(c, 'purify_div', False):
+            # q = num/den  as  q*den == num  (den != 0 on this path): keeps the query polynomial
+            q = c.fresh_real('quot')
+            c.add(q * o2.v == self.z3())
+            return R(q)
         return R(self.z3() / o2.v)
 
     def __rtruediv__(self, o):
